@@ -303,16 +303,10 @@ class LoopMixin:
                 if isinstance(before, Num) and isinstance(after, Num) and isinstance(ph, Num) and ph.r.single_atom() is not None:
                     acc = ph.r.single_atom()
                     delta = after.r - Rat.atom(acc)
-                    others = set()
-                    for n2, p2 in rec.placeholders.items():
-                        if n2 != name:
-                            lv = []
-                            self.leaves(p2, lv, "")
-                            for _, x in lv:
-                                if isinstance(x, Rat):
-                                    others |= x.atom_ids()
-                    state_dep = any(poly.T.get(i).kind == "sym" and "[k]" in poly.T.get(i).name for i in delta.deps() if i != acc.id) \
-                        or bool(delta.deps() & others)
+                    # the step may not depend on another variable this same loop carries (then the sum has no closed form)
+                    prefixes = tuple("%s[k]" % n2 for n2 in rec.placeholders if n2 != name)
+                    state_dep = bool(prefixes) and any(poly.T.get(i).kind == "sym" and poly.T.get(i).name.startswith(prefixes)
+                                                       for i in delta.deps() if i != acc.id)
                     if acc.id in delta.deps() or state_dep:
                         self._set_var(frame, name, Opaque("loop-carried %s (non-additive)" % name))
                     else:
